@@ -838,7 +838,7 @@ def main(run):
     weight = {"T": 0, "V": 1, "S": 2}
     cases = [{"grid": g, "first": op, "depth": depth, "seed": run.seed}
              for g in reversed(GRIDS) for op in sorted(CTORS, key=lambda o: weight[o[0]])]
-    res = run.explore("checks.c15:bfs", cases, mode="I", part="bfs", chunksize=1, limit=3000, collect=True)
+    res = run.explore("checks.c15:bfs", cases, mode="I", part="bfs", chunksize=1, limit=6000, collect=True)
     tot = collections.Counter()
     per_grid = collections.defaultdict(collections.Counter)
     outcomes = collections.Counter()
@@ -871,6 +871,11 @@ def main(run):
         "vector Laplace / tensor interpolation are not in the alphabet (not implemented on all families)",
         "operators set the ghost cells of their source (documented); everything else an operation does not "
         "document to write must stay bitwise unchanged, including ghost cells",
+        "dtypes are observed, not modelled (a collection whose members were moved into a later collection builds "
+        "copy()/-fc/storage results from the moved members, whose dtype may have been up-cast there; documented: "
+        "fields cannot be linked to several collections at once)",
+        "values written by in-place operations are compared with the same numpy ufunc applied to the saved operands "
+        "(rtol 1e-12: numpy's scalar-power fast path differs from np.power in the last bits)",
         "VERIF_SEED only selects the generic contents written into the fields",
     ]
     return (
